@@ -90,6 +90,17 @@ pub fn run_case(c: &J) -> J {
                 }
                 answers.push(json!({"op": if skip { "skipped" } else { op }, "c": ci, "s": s, "e": e, "iv": iv, "vals": vals, "err": err}));
             }
+            "badchrom" => {
+                // a query naming a chromosome the file does not have (alternately a data and a zoom query): must fail, and must not disturb the reader
+                let k = answers.len() % 2;
+                let failed = match (&mut rd, k) {
+                    (Rd::Plain(r), 0) => r.get_interval("no_such_chromosome", 0, 5).is_err(),
+                    (Rd::Cached(r), 0) => r.get_interval("no_such_chromosome", 0, 5).is_err(),
+                    (Rd::Plain(r), _) => r.get_zoom_interval("no_such_chromosome", 0, 5, zres.unwrap_or(2)).is_err(),
+                    (Rd::Cached(r), _) => r.get_zoom_interval("no_such_chromosome", 0, 5, zres.unwrap_or(2)).is_err(),
+                };
+                answers.push(json!({"op": op, "c": 0, "s": 0, "e": 0, "iv": [], "vals": [], "err": if failed {1} else {0}}));
+            }
             "zoom" => {
                 // a zoom-level query through the SAME reader instance (shares the lazily read info and both caches with data queries)
                 let ci = h["c"].as_i64().unwrap();
